@@ -85,13 +85,14 @@ pub fn run_one(scn: &Scenario, trace: bool) -> Result<ScenarioResult, String> {
             return serde_json::from_str::<ScenarioResult>(j).map_err(|e| format!("scenario {}: unparsable result line: {e}", scn.id));
         }
         if let Some(t) = line.strip_prefix("@@LIVELOCK ") {
-            // deterministic: more than simclock::sim::LIVELOCK_OPS facade operations at one virtual instant
+            // deterministic: more than LIVELOCK_POLLS task polls (or simclock::sim::LIVELOCK_OPS facade
+            // operations) at one virtual instant
             let p = scn.property.clone();
             return Ok(ScenarioResult {
                 id: scn.id,
                 digest: hash_str(&format!("livelock {t}")),
                 nontrivial: true,
-                violations: vec![Violation { property: p.clone(), oracle: format!("{p}.daemon_livelock"), key: "kind=spins_at_one_instant".into(), message: format!("the daemon performed more than 3000000 socket/clock operations without virtual time advancing past t={t} ns") }],
+                violations: vec![Violation { property: p.clone(), oracle: format!("{p}.daemon_livelock"), key: "kind=spins_at_one_instant".into(), message: format!("the daemon's tasks were polled more than {} times (or performed more than 3000000 socket/clock operations) without virtual time advancing past t={t} ns", crate::worker::LIVELOCK_POLLS) }],
                 ..Default::default()
             });
         }
